@@ -536,43 +536,29 @@ def leaf_dbg(kind, x, ty=None, tparams=()):
     return {'leaf': 'L%d' % x, 'u8': str(x), 'inh': '?'}[kind]
 
 
-def render_debug(events, kinds, vals, pretty, tys=None, tparams=()):
-    """core::fmt's DebugStruct / DebugTuple rendering."""
-    head = events[0]
-    if head.startswith('WS:'):
-        return head[3:]
-    name = head[3:]
-    fields = []
-    fin = events[-1]
-    for e in events[1:-1]:
-        if e.startswith('FN:'):
-            _, fname, pos = e.split(':')
-            fields.append((fname, leaf_dbg(kinds[int(pos)], vals[int(pos)], tys[int(pos)], tparams)))
-        else:
-            fields.append((None, leaf_dbg(kinds[int(e[3:])], vals[int(e[3:])], tys[int(e[3:])], tparams)))
-    struct = head.startswith('DS:')
-    if not pretty:
-        if struct:
-            inner = ', '.join('%s: %s' % f for f in fields)
-            if fin == 'FNE':
-                inner = inner + ', ..' if fields else '..'
-            return '%s { %s }' % (name, inner) if inner else name
-        return '%s(%s)' % (name, ', '.join(v for _, v in fields)) if fields else name
-    if struct:
-        if not fields:
-            return name + ' { .. }' if fin == 'FNE' else name
-        s = name + ' {\n' + ''.join('    %s: %s,\n' % f for f in fields)
-        if fin == 'FNE':
-            s += '    ..\n'
-        return s + '}'
-    if not fields:
-        return name
-    return name + '(\n' + ''.join('    %s,\n' % v for _, v in fields) + ')'
-
-
 def parse_answer(ans):
+    ans = ans.split(' text=', 1)[0]
     m = re.match(r'spec=(.*) eval=(.*)$', ans)
     return (m.group(1), m.group(2)) if m else (None, None)
+
+
+def parse_text(ans):
+    """`text=<spec compact>\\x1f<spec pretty>\\x1e<eval compact>\\x1f<eval pretty>` of a `debug` answer: the text the Lean
+    model of core::fmt's builders (DW/Fmt.lean) renders, with `@pos@` where a field value's own text goes."""
+    if ' text=' not in ans:
+        return None, None
+    t = ans.split(' text=', 1)[1]
+    if '\x1e' not in t:
+        return None, None
+    a, b = t.split('\x1e', 1)
+    return a, b
+
+
+def fill_text(text, kinds, vals, tys, tparams):
+    def sub(m):
+        i = int(m.group(1))
+        return leaf_dbg(kinds[i], vals[i], tys[i], tparams)
+    return [re.sub(r'@(\d+)@', sub, x) for x in text.split('\x1f')]
 
 
 def split_val_log(s):
@@ -609,10 +595,13 @@ def expected_observation(item, cfg, q, spec, all_answers):
         cf = ['CF%d' % vals[int(e[2:])] for e in log if kinds[k][int(e[2:])] == 'leaf']
         return [v, ','.join(cf)]
     if op == 'debug':
-        ev = [x for x in spec.split(',') if x]
         tys = [f.ty for f in item.variants[k].fields]
         tps = [p.name for p in item.params if p.kind == 'ty']
-        return [render_debug(ev, kinds[k], vals, False, tys, tps), render_debug(ev, kinds[k], vals, True, tys, tps).replace('\n', '\\n')]
+        text = all_answers.get(('debugtext', enc(a)))
+        if text and text != 'none':
+            # the Lean model of core::fmt's builders (DW/Fmt.lean) renders the text; only the leaves' own text is filled in
+            return fill_text(text, kinds[k], vals, tys, tps)
+        return None          # no text from the driver: reported as a model failure by the caller
     if op == 'default':
         v, _ = split_val_log(spec)
         m = re.match(r'V(\d+)\((.*)\)$', v)
@@ -726,6 +715,14 @@ def run_b_(cfg, named_items, hostile=False):
         for q, a in zip(qs, parts):
             s, e = parse_answer(a)
             specs[(q[0], enc(q[1]) if q[1] else None)] = s
+            if q[0] == 'debug':
+                st, et = parse_text(a)
+                specs[('debugtext', enc(q[1]))] = st
+                report['debug_texts'] = report.get('debug_texts', 0) + (st not in (None, 'none'))
+                if st != et or st in (None, 'none'):
+                    # the closed form of the specification and the builders' state machine run on the generated code's
+                    # formatter calls must print the same text
+                    report['model_failures'].append(dict(name=name, source=it.rust(), query=qstr(q), spec=st, eval=et))
         for qi, (q, a) in enumerate(zip(qs, parts)):
             report['queries'] += 1
             spec, ev = parse_answer(a)
